@@ -24,40 +24,40 @@ def rule_of(pid):
 
 
 CHECKS = {
-    "C01": hist("TestC01", 6000, 40, 40000, 60,
-                extra_thorough=[{"test": "TestC01", "variant": "386", "checks": 20000, "steps": 60, "shards": 2, "timeout": 3000}],
+    "C01": hist("TestC01", 6000, 40, 20000, 60,
+                extra_thorough=[{"test": "TestC01", "variant": "386", "checks": 10000, "steps": 60, "shards": 2, "timeout": 3000}],
                 kf_test="TestKF_C01",
                 essential=["absent_proper_prefix_of_stored", "absent_shares_prefix_gt10", "reinsert_after_delete",
                            "has_node16", "has_node48", "has_node256", "lost_node48", "lost_node256", "inspath_pathsplit_long"]),
-    "C02": hist("TestC02", 5000, 40, 30000, 60,
-                extra_thorough=[{"test": "TestC02", "variant": "386", "checks": 15000, "steps": 60, "shards": 2, "timeout": 3000}],
+    "C02": hist("TestC02", 5000, 40, 15000, 60,
+                extra_thorough=[{"test": "TestC02", "variant": "386", "checks": 8000, "steps": 60, "shards": 2, "timeout": 3000}],
                 essential=["scan_ge3_after_delete", "has_node16", "has_node48", "has_node256", "lost_node48", "lost_node256"]),
-    "C03": hist("TestC03", 6000, 40, 40000, 60,
+    "C03": hist("TestC03", 6000, 40, 20000, 60,
                 essential=["range_nontrivial", "range_bound_absent", "range_reversed", "range_bounds_lcp_gt10", "range_empty_tree"]),
-    "C04": hist("TestC04", 6000, 40, 30000, 60,
+    "C04": hist("TestC04", 6000, 40, 15000, 60,
                 essential=["prefix_proper_subset", "prefix_no_match", "prefix_arg_gt10", "has_node16", "has_node48", "has_node256", "has_long_path"]),
-    "C05": hist("TestC05", 4000, 40, 20000, 60,
+    "C05": hist("TestC05", 4000, 40, 12000, 60,
                 essential=["extreme_size_0", "extreme_size_1", "extreme_size_many", "k_zero", "k_gt_size", "has_node48", "has_node256"]),
-    "C06": hist("TestC06", 5000, 40, 30000, 60,
+    "C06": hist("TestC06", 5000, 40, 15000, 60,
                 essential=["inspath_empty", "inspath_leafsplit", "inspath_pathsplit", "inspath_pathsplit_long", "inspath_childadd", "delete_absent"]),
-    "C08": hist("TestC08", 5000, 40, 30000, 60,
+    "C08": hist("TestC08", 5000, 40, 15000, 60,
                 essential=["equal_primary_pair", "nondefault_collator", "delete_present", "has_long_path"]),
-    "C09": hist("TestC09", 4000, 40, 25000, 60,
+    "C09": hist("TestC09", 3000, 40, 8000, 60,
                 essential=["multi_field", "same_first_field_pair", "range", "delete_present"]),
-    "C11": hist("TestC11", 4000, 40, 15000, 60,
+    "C11": hist("TestC11", 4000, 40, 8000, 60,
                 extra_quick=[{"test": "TestC11Closure", "timeout": 600}],
                 extra_thorough=[{"test": "TestC11Closure", "timeout": 1200},
                                 {"test": "TestC11", "variant": "386", "checks": 8000, "steps": 60, "shards": 2, "timeout": 3000}],
                 essential=["inspath_pathsplit_long", "merge", "merge_crossing_inline_limit", "gained_node16", "gained_node48", "gained_node256",
                            "lost_node16", "lost_node48", "lost_node256"]),
-    "C12": hist("TestC12", 1500, 60, 8000, 100,
+    "C12": hist("TestC12", 1500, 60, 4000, 100,
                 essential=["cross_tree_reuse_node4", "cross_tree_reuse_node16", "cross_tree_reuse_node48", "cross_tree_reuse_node256", "twin_created"]),
-    "C13": hist("TestC13", 5000, 40, 25000, 60,
+    "C13": hist("TestC13", 5000, 40, 12000, 60,
                 essential=["arena_spare_calls", "range", "prefix"]),
-    "C14": hist("TestC14", 5000, 40, 20000, 60,
+    "C14": hist("TestC14", 5000, 40, 10000, 60,
                 essential=["iter_nontrivial_all", "iter_nontrivial_backward", "iter_nontrivial_prefix", "iter_nontrivial_range",
                            "iter_nontrivial_topk", "iter_nontrivial_bottomk"]),
-    "C15": hist("TestC15", 3000, 40, 12000, 60,
+    "C15": hist("TestC15", 3000, 40, 6000, 60,
                 essential=["bracketed_deep", "delete_absent", "overwrite"]),
     "C07": {
         "kind": "go",
@@ -104,7 +104,7 @@ CHECKS = {
                         "thresholds: total growth > 1 MiB over 8N operations with growth > 256 KiB in at least two of the intervals [0,N],[N,2N],[2N,4N],[4N,8N]; emptied tree retains <= 256 KiB",
                         "a measurement over the threshold is re-taken up to three times before it counts"],
     },
-    "C18": hist("TestC18", 1200, 40, 10000, 60,
+    "C18": hist("TestC18", 1200, 40, 5000, 60,
                 essential=["valtype_int", "valtype_string", "valtype_ptr", "valtype_bytes", "valtype_big", "valtype_empty", "valtype_any", "gc_with_8", "range"]),
 }
 for _r in CHECKS["C18"]["quick"] + CHECKS["C18"]["thorough"]:
